@@ -235,6 +235,24 @@ namespace vf
             return args.prop == "all" || args.prop == p;
         }
 
+        // fuzzing mode (libFuzzer drives the cases in-process): no per-case protocol lines; a violation that counts for the
+        // campaign is printed and the process aborts, so that the fuzzer keeps the input as an artifact
+        void set_fuzz(const char* known_keys_csv)
+        {
+            fuzz = true;
+            std::string s = known_keys_csv ? known_keys_csv : "";
+            std::size_t a = 0;
+            while (a < s.size())
+            {
+                std::size_t b = s.find(',', a);
+                if (b == std::string::npos)
+                    b = s.size();
+                if (b > a)
+                    fuzz_known.insert(s.substr(a, b - a));
+                a = b + 1;
+            }
+        }
+
         void begin(long k)
         {
             cur = k;
@@ -242,6 +260,8 @@ namespace vf
             cur_inconc = false;
             cur_nontrivial = false;
             cur_hash = 0;
+            if (fuzz)
+                return;
             std::printf("BEGIN %ld\n", k);
             std::fflush(stdout);
         }
@@ -264,6 +284,21 @@ namespace vf
         // record a violation of property `prop` with classifier key `key`
         void violation(const std::string& prop, const std::string& key, const std::string& witness_json)
         {
+            if (fuzz)
+            {
+                const bool table = prop == "C06" && (key.find("_range") != std::string::npos || key == "table_shapes");
+                const bool counts = args.prop == "all" ? table : prop == args.prop;
+                if (!counts)
+                    return;
+                if (fuzz_known.count(prop + ":" + key))
+                {
+                    count("known:" + prop + ":" + key);
+                    return;
+                }
+                std::printf("VIOL %ld %s %s %s\n", cur, prop.c_str(), key.c_str(), witness_json.c_str());
+                std::fflush(stdout);
+                std::abort();
+            }
             ++cur_viol;
             ++total_viol;
             count("viol:" + prop + ":" + key);
@@ -280,6 +315,13 @@ namespace vf
             ++evaluations;
             if (cur_nontrivial)
                 ++nontrivial_cases;
+            if (fuzz)
+            {
+                if (cur_nontrivial)
+                    fuzz_hashes.insert(cur_hash);
+                cur = -1;
+                return;
+            }
             std::printf("END %ld %s %d %016" PRIx64 "\n", cur, v, cur_nontrivial ? 1 : 0, cur_hash);
             std::fflush(stdout);
             cur = -1;
@@ -337,6 +379,7 @@ namespace vf
                 .i("evaluations", evaluations)
                 .i("nontrivial", nontrivial_cases)
                 .i("violations", total_viol)
+                .i("fuzz_distinct_nontrivial", static_cast<long>(fuzz_hashes.size()))
                 .d("wall_s", wall)
                 .raw("counters", cj)
                 .raw("samples", sj);
@@ -350,8 +393,15 @@ namespace vf
         }
 
         const Args args;
+        std::size_t fuzz_distinct() const
+        {
+            return fuzz_hashes.size();
+        }
 
     private:
+        bool fuzz = false;
+        std::set<std::string> fuzz_known;
+        std::set<std::uint64_t> fuzz_hashes;
         std::string m_harness, m_grid;
         long cur = -1;
         long cur_viol = 0;
